@@ -78,11 +78,13 @@ def case_bin(ctx, shape, n, layout=None):
     work = _layout(data, layout)
     if layout:
         work = work.view(core.SA)
+    ctx.fallback = lambda m: replay_bin(m(data), n, layout)
     with npx.symbolic(ip):
         out = ip.binImgs(work, n)
         out_again = ip.binImgs(work, n)      # the same array object a second time (no state may be left in it)
     ctx.paths += 1
     rp = lambda m: replay_bin(m(data), n, layout)
+    ctx.fallback = rp
     want = block_sums(data, n)
     ctx.prove("binImgs = n x n block sums", [], all_eq(numpy.asarray(out, dtype=object), want), replay=rp)
     ctx.prove("binning the same array a second time returns the same block sums", [], all_eq(numpy.asarray(out_again, dtype=object), want), replay=rp)
@@ -122,6 +124,7 @@ def case_azi(ctx, size):
         avgc = numpy.asarray(psf.azimuthal_average(const), dtype=object)
     ctx.paths += 1
     rp = lambda m: replay_azi(m(data))
+    ctx.fallback = rp
     ctx.prove("length is size/2", [], z3.BoolVal(len(avg) == size // 2), replay=rp, axioms=False)
     ctx.prove("constant image -> that constant in every ring", [], all_eq(avgc, numpy.array([c] * len(avgc), dtype=object)),
               replay=lambda m: replay_azi(numpy.full((size, size), m(c))), witness_terms=dict(c=c))
